@@ -364,7 +364,7 @@ def check_polyline(ctx, sig, pm, paths, V, start):
     used = set(x for e in PE for x in e)
     iso = [i for i in range(len(PV)) if i not in used]
     ok_iso = all(PV[i] == co(start) for i in iso) and (not iso or any(len(p) == 1 for p in paths))
-    ctx.check(ok_iso, sig + ":dangling", f"polyline vertices {iso} belong to no edge although they are not a one-vertex path. {desc}")
+    ctx.check(ok_iso, sig + ":edges", f"polyline vertices {iso} belong to no edge although they are not a one-vertex path. {desc}")
 
 
 def fn(case, ctx):
@@ -577,9 +577,9 @@ def self_test():
 
 
 SUBCHECKS = [
-    SubCheck("point_to_point", query_case("p2p"), fn, quick=4000, thorough=3000),
-    SubCheck("vertex_set", query_case("set"), fn, quick=3000, thorough=2500),
-    SubCheck("border", query_case("border"), fn, quick=1500, thorough=1200),
+    SubCheck("point_to_point", query_case("p2p"), fn, quick=2500, thorough=3000),
+    SubCheck("vertex_set", query_case("set"), fn, quick=2000, thorough=2500),
+    SubCheck("border", query_case("border"), fn, quick=1000, thorough=1200),
 ]
 
 MATCHERS = {}
